@@ -55,6 +55,7 @@ def tvalue(rng):
     if r < 0.08: return 0.0
     if r < 0.16: return 1.0
     if r < 0.3: return rng.choice([0.5, 0.25, 0.75, 0.125, 0.2, 0.1, 1 / 3])
+    if r < 0.36: return rng.choice([1 - 2.0 ** -31, 1 - 1e-10, 2.0 ** -31, 1e-12, 1 - 2.0 ** -52])    # within 1e-9 of an end, not at it
     return rng.random()
 
 
